@@ -143,6 +143,12 @@ static coap_response_t h_resp(coap_session_t *s, const coap_pdu_t *sent, const c
   lit(d, n);
   blk("b1", s, rcv, COAP_OPTION_BLOCK1);
   blk("b2", s, rcv, COAP_OPTION_BLOCK2);
+  {
+    coap_opt_iterator_t oi;
+    coap_opt_t *o = coap_check_option(rcv, COAP_OPTION_ETAG, &oi);
+    fputs(",\"etag\":", sim_trace);
+    if (o) arr(coap_opt_value(o), coap_opt_length(o) <= 8 ? coap_opt_length(o) : 8); else fputs("[-1]", sim_trace);
+  }
   fputs("}\n", sim_trace);
   return COAP_RESPONSE_OK;
 }
@@ -154,6 +160,13 @@ static void h_nack(coap_session_t *s, const coap_pdu_t *sent, const coap_nack_re
   if (sent) { coap_bin_const_t t = coap_pdu_get_token(sent); arr(t.s, t.length <= 8 ? t.length : 8); }
   else fputs("[-1]", sim_trace);        /* a Reset that matched nothing queued is reported without a PDU */
   fputs("}\n", sim_trace);
+}
+
+static int h_cevent(coap_session_t *s, const coap_event_t ev) {
+  (void)s;
+  /* the application is told that the blocks it has been given so far are void (the body changed, the transfer starts over) */
+  if (ev == COAP_EVENT_PARTIAL_BLOCK && !in_teardown) fprintf(sim_trace, "{\"e\":\"Partial\",\"side\":\"c\"}\n");
+  return 0;
 }
 
 static int h_sevent(coap_session_t *s, const coap_event_t ev) {
@@ -293,6 +306,7 @@ static void run_case(int id) {
   coap_context_set_block_mode(cctx, mode);
   coap_register_response_handler(cctx, h_resp);
   coap_register_nack_handler(cctx, h_nack);
+  coap_register_event_handler(cctx, h_cevent);
   sim_add_node(cctx);
   csess = coap_new_client_session(cctx, NULL, &srv_addr, COAP_PROTO_UDP);
   if (cmtu > 0) coap_session_set_mtu(csess, (unsigned)cmtu);
